@@ -53,6 +53,8 @@ def build_model(case):
         tok = s if s.ndim == 1 else s[:, 0]
         d = np.floor(tok * A * 0.999999)
         d = np.where(tok > 1 - p_inf, np.inf, d)
+        if case.get('int_discrepancy'):
+            return d.astype(np.int64)          # a count-valued discrepancy (mismatch counts on discrete data): integer dtype
         return d
 
     elfi.Discrepancy(dfun, S, model=m, name='d')
@@ -90,14 +92,14 @@ def analyse(ctx, case):
         for r in range(case['b']):
             did = bi * case['b'] + r
             key = float(pool.stores['d'][bi][r])
-            tup = tuple(np.asarray(pool.stores[k][bi][r]).tobytes() for k in outs)
+            tup = tuple(np.asarray(pool.stores[k][bi][r], dtype=float).tobytes() for k in outs)      # (values, whatever the dtype: an integer discrepancy comes back as float)
             ident.setdefault(tup, []).append(did)
             cons.append([did, key_json(key)])
             rows.append([did, key_json(key)])
         batches.append(rows)
     out, used, unmatched = [], set(), 0
     for r in range(len(res.outputs['d'])):
-        tup = tuple(np.asarray(res.outputs[k][r]).tobytes() for k in outs)
+        tup = tuple(np.asarray(res.outputs[k][r], dtype=float).tobytes() for k in outs)
         cands = [i for i in ident.get(tup, []) if i not in used]
         if cands:
             used.add(cands[0])
@@ -178,7 +180,8 @@ def gen_case(rng, boundary=None):
         value = None
         n = rng.randint(1, 2)           # default quantile 0.01 -> 100..200 simulations
         b = rng.randint(5, 8)
-    return dict(b=b, n=n, form=form, value=value, alphabet=A, p_inf=p_inf, seed=rng.randrange(2**32),
+    int_d = p_inf == 0 and rng.random() < .3
+    return dict(b=b, n=n, form=form, value=value, alphabet=A, p_inf=p_inf, int_discrepancy=int_d, seed=rng.randrange(2**32),
                 n_params=rng.randint(1, 3), summary_shape=rng.choice(['vec', 'mat']), extra=rng.random() < .6,
                 mpb=rng.choice([1, 1, 2, 3]))
 
